@@ -182,6 +182,83 @@ func extractC15(c *Ctx) {
 		}
 	}
 	c.Add("resolverFallback", "List String", LeanStrList(fb), src, "version fallback loop of Resolver.resolve")
+
+	// ---- aggregateWatcher and its wiring in ReflectionRouter.Add / Remove (reflection.go) ----------
+	const root = "reflection.go"
+	var agg []string
+	src = ""
+	for _, m := range []struct{ name, arg string }{{"UpdateDesc", "target"}, {"ReportError", "err"}, {"Close", ""}} {
+		fd := c.FuncDecl(root, "aggregateWatcher", m.name)
+		if fd == nil {
+			agg = append(agg, "?:missing:"+m.name)
+			continue
+		}
+		if src == "" {
+			src = c.Pos(fd)
+		}
+		body := ""
+		for _, st := range fd.Body.List {
+			body += squash(c.Src(st)) + ";"
+		}
+		if body == "for_,w:=rangea.watchers{w."+m.name+"("+m.arg+")};" {
+			agg = append(agg, m.name+":range-watchers:w."+m.name)
+		} else if body == `fori,w:=rangea.watchers{verifhook.Point("aggregate.update.member",target.Name,strconv.Itoa(i))w.UpdateDesc(target)};` {
+			agg = append(agg, m.name+":range-watchers:hook:aggregate.update.member,w."+m.name)
+		} else {
+			agg = append(agg, "?:"+m.name+":"+body)
+		}
+	}
+	if fd := c.FuncDecl(root, "ReflectionRouter", "Add"); fd != nil {
+		for _, st := range fd.Body.List {
+			s := squash(c.Src(st))
+			switch {
+			case strings.HasPrefix(s, "watcher:="):
+				if s == "watcher:=&aggregateWatcher{watchers:[]closableWatcher{patternWatcher,serviceWatcher}}" {
+					agg = append(agg, "Add:members:patternWatcher,serviceWatcher")
+				} else {
+					agg = append(agg, "?:"+s)
+				}
+			case strings.Contains(s, "resolverBuilder.Build("):
+				if s == "resolver:=r.resolverBuilder.Build(name,watcher)" {
+					agg = append(agg, "Add:Build(name,watcher)")
+				} else {
+					agg = append(agg, "?:"+s)
+				}
+			}
+		}
+	}
+	if fd := c.FuncDecl(root, "ReflectionRouter", "Remove"); fd != nil {
+		var order []string
+		for _, st := range fd.Body.List {
+			if es, ok := st.(*ast.ExprStmt); ok {
+				s := squash(c.Src(es))
+				if strings.HasPrefix(s, "target.") && strings.HasSuffix(s, ".Close()") {
+					order = append(order, strings.TrimSuffix(strings.TrimPrefix(s, "target."), "()"))
+				}
+			}
+		}
+		agg = append(agg, "Remove:"+strings.Join(order, ","))
+	}
+	c.Add("aggregateWiring", "List String", LeanStrList(agg), src, "aggregateWatcher's three loops, the member list Add builds and the Close order of Remove")
+
+	// ---- afterInterval: the timer case of the select ------------------------------------------------
+	var ai []string
+	src = ""
+	if fd := c.FuncDecl(file, "Resolver", "afterInterval"); fd != nil {
+		src = c.Pos(fd)
+		for _, st := range fd.Body.List {
+			s := squash(c.Src(st))
+			switch s {
+			case "ifr.opts.PollManually{returnnil}":
+				ai = append(ai, "if:PollManually:return-nil")
+			case "returntime.After(r.opts.PollInterval)":
+				ai = append(ai, "return:time.After(PollInterval)")
+			default:
+				ai = append(ai, "?:"+s)
+			}
+		}
+	}
+	c.Add("resolverAfterInterval", "List String", LeanStrList(ai), src, "statements of Resolver.afterInterval (a fresh time.After per select, nil channel when polling manually)")
 }
 
 func endsWithContinue(b *ast.BlockStmt) bool {
